@@ -9,6 +9,7 @@ import (
 // Harness-side ("peer"/"user") system calls: real calls, each a scheduling point, logged in the
 // ledger as owned by the application so that fd-number reuse is visible to the C07 oracle.
 
+//go:norace
 func PConnectUnix(path string) (int, error) {
 	sched.Point("peer.socket", 0)
 	fd, err := real.Socket(real.AF_UNIX, real.SOCK_STREAM|real.SOCK_NONBLOCK|real.SOCK_CLOEXEC, 0)
@@ -27,6 +28,7 @@ func PConnectUnix(path string) (int, error) {
 	return fd, nil
 }
 
+//go:norace
 func PWrite(fd int, p []byte) (int, error) {
 	sched.Point("peer.write", int64(fd))
 	n, err := real.Write(fd, p)
@@ -34,6 +36,7 @@ func PWrite(fd int, p []byte) (int, error) {
 	return n, err
 }
 
+//go:norace
 func PRead(fd int, p []byte) (int, error) {
 	sched.Point("peer.read", int64(fd))
 	n, err := real.Read(fd, p)
@@ -41,6 +44,7 @@ func PRead(fd int, p []byte) (int, error) {
 	return n, err
 }
 
+//go:norace
 func PClose(fd int) error {
 	sched.Point("peer.close", int64(fd))
 	err := real.Close(fd)
@@ -49,6 +53,7 @@ func PClose(fd int) error {
 	return err
 }
 
+//go:norace
 func PShutdown(fd int, how int) error {
 	sched.Point("peer.shutdown", int64(fd))
 	err := real.Shutdown(fd, how)
@@ -58,6 +63,8 @@ func PShutdown(fd int, how int) error {
 
 // POpen opens and immediately returns a descriptor owned by the application (used by "user"
 // threads that churn descriptor numbers).
+//
+//go:norace
 func POpen() (int, error) {
 	sched.Point("user.open", 0)
 	fd, err := real.Eventfd(0, real.EFD_NONBLOCK|real.EFD_CLOEXEC)
@@ -65,4 +72,68 @@ func POpen() (int, error) {
 		L.created(fd, "user", "user-eventfd")
 	}
 	return fd, err
+}
+
+// PUDPSocket creates a non-blocking UDP socket bound to the loopback address (v6: ::1) and an
+// ephemeral port; it returns the descriptor and the bound address.
+//
+//go:norace
+func PUDPSocket(v6 bool, port int) (int, real.Sockaddr, error) {
+	sched.Point("peer.socket", 0)
+	dom := real.AF_INET
+	if v6 {
+		dom = real.AF_INET6
+	}
+	fd, err := real.Socket(dom, real.SOCK_DGRAM|real.SOCK_NONBLOCK|real.SOCK_CLOEXEC, 0)
+	if err != nil {
+		return -1, nil, err
+	}
+	L.created(fd, "user", "peer-udp")
+	var sa real.Sockaddr
+	if v6 {
+		a := &real.SockaddrInet6{Port: port}
+		a.Addr[15] = 1
+		sa = a
+	} else {
+		sa = &real.SockaddrInet4{Port: port, Addr: [4]byte{127, 0, 0, 1}}
+	}
+	if err := real.Bind(fd, sa); err != nil {
+		_ = real.Close(fd)
+		L.closed(fd, "user", nil)
+		return -1, nil, err
+	}
+	bound, err := real.Getsockname(fd)
+	return fd, bound, err
+}
+
+//go:norace
+func PSendto(fd int, p []byte, to real.Sockaddr) error {
+	sched.Point("peer.sendto", int64(fd))
+	err := real.Sendto(fd, p, 0, to)
+	L.log("peer.sendto", fd, len(p), len(p), err, "user", "")
+	return err
+}
+
+//go:norace
+func PRecvfrom(fd int, p []byte) (int, real.Sockaddr, error) {
+	sched.Point("peer.recvfrom", int64(fd))
+	n, from, err := real.Recvfrom(fd, p, 0)
+	L.log("peer.recvfrom", fd, len(p), n, err, "user", "")
+	return n, from, err
+}
+
+// FrameworkSockets lists the descriptors the framework created with socket(2) and still owns.
+//
+//go:norace
+func FrameworkSockets() []int {
+	var out []int
+	if L == nil {
+		return out
+	}
+	for fd := 0; fd < maxFd; fd++ {
+		if st := L.get(fd); st != nil && st.owner == "fw" && st.kind == "socket" {
+			out = append(out, fd)
+		}
+	}
+	return out
 }
